@@ -585,6 +585,96 @@ def oracle_fd(pym, classes, case, sens):
     return bad, False
 
 
+# ----------------------------------------------------------------------------- malformed stream
+ERR = {None: 'ENone', TypeError: 'ETypeError', ValueError: 'EValueError', IndexError: 'EIndexError',
+       AssertionError: 'EAssertionError', RuntimeError: 'ERuntimeError'}
+
+
+def err_enum(e):
+    if e is None:
+        return 'ENone'
+    for cls in (TypeError, ValueError, IndexError, AssertionError, RuntimeError):
+        if isinstance(e, cls):
+            return ERR[cls]
+    return 'EOther'
+
+
+def malformed_case(pym, rng):
+    """one out-of-protocol mini network; returns (label, observed exception class, Coq expression predicting it)"""
+    kind = rng.choice(['resp-count', 'sens-count', 'add-shape', 'slice-add-shape', 'slice-range'])
+    n = rng.randint(2, 5)
+    x = pym.Signal('x', np.arange(1.0, n + 1))
+
+    class Bad(pym.Module):
+        def _prepare(self, nret_resp, nret_sens, dlen):
+            self.a, self.b, self.d = nret_resp, nret_sens, dlen
+
+        def _response(self, *xs):
+            return [np.ones(2) for _ in range(self.a)]
+
+        def _sensitivity(self, *ws):
+            return [np.ones(self.d) for _ in range(self.b)]
+    err = None
+    if kind == 'resp-count':
+        nouts, nret = rng.randint(1, 3), rng.randint(0, 3)
+        m = Bad([x], [pym.Signal(f'y{i}') for i in range(nouts)], nret, 1, n)
+        try:
+            m.response()
+        except Exception as e:
+            err = e
+        # a module returning no value at all (None) is read as zero outputs; a single array as one output
+        pred = f'resp_count_err {nret} {nouts}'
+        par = (nouts, nret)
+    elif kind == 'sens-count':
+        nins, nret, seeded = rng.randint(1, 3), rng.randint(0, 3), rng.random() < 0.75
+        m = Bad([x] * nins, [pym.Signal('y')], 1, nret, n)
+        try:
+            m.response()
+            if seeded:
+                m.sig_out[0].sensitivity = np.ones(2)
+            m.sensitivity()
+        except Exception as e:
+            err = e
+        pred = f"sens_count_err {'true' if seeded else 'false'} {nret} {nins}"
+        par = (nins, nret, seeded)
+    elif kind == 'add-shape':
+        d, present = rng.randint(1, 6), rng.random() < 0.7
+        m = Bad([x], [pym.Signal('y')], 1, 1, d)
+        try:
+            m.response()
+            m.sig_out[0].sensitivity = np.ones(2)
+            if present:
+                x.sensitivity = np.zeros(n)
+            m.sensitivity()
+        except Exception as e:
+            err = e
+        pred = f"add_err ({'Some ' + str(n) if present else 'None'}) {d}"
+        par = (n, d, present)
+    elif kind == 'slice-add-shape':
+        k, d = rng.randint(2, n), rng.randint(1, 6)
+        idx = rng.sample(range(n), k)
+        m = Bad([x[np.array(idx)]], [pym.Signal('y')], 1, 1, d)
+        try:
+            m.response()
+            m.sig_out[0].sensitivity = np.ones(2)
+            m.sensitivity()
+        except Exception as e:
+            err = e
+        pred = f'add_err (Some {k}) {d}'     # the temporary base.sensitivity[idx] has length k
+        par = (n, k, d)
+    else:
+        idx = [rng.randint(0, n + 2) for _ in range(rng.randint(1, 3))]
+        m = Bad([x[np.array(idx)]], [pym.Signal('y')], 1, 1, len(idx))
+        try:
+            m.response()
+        except Exception as e:
+            err = e
+        pred = f'slice_read_err {n} {nl(idx)}'
+        par = (n, tuple(idx))
+    obs = err_enum(err)
+    return (kind,) + par, obs, f'errclass_eqb ({pred}) {obs}'
+
+
 # ----------------------------------------------------------------------------- main
 def features(case):
     f = set()
@@ -625,7 +715,10 @@ def run(ctx):
                 'signals or admissible slice chains (basic, negative step, integer arrays without repeats, masks, scalar '
                 'index, nested basic, 2-D row/column/block); random nesting into inner Networks (depth <= 4, empty ones '
                 'included); seeds on random subsets of outputs/intermediates/sources.  A case is non-trivial when some seed '
-                'reaches a source through at least one module; distinct by the full case description.')
+                'reaches a source through at least one module; distinct by the full case description.  Malformed stream (~10%): '
+                'out-of-protocol mini networks (wrong number of responses / sensitivities, wrong-shaped contribution to a present '
+                'sensitivity or through a slice, slice position outside the base): only the exception class is compared with '
+                'the error-dispatch model (Net.v errclass).')
     ctx.assumptions += ['modules are adjoint pairs at the evaluation point (C01) and do not mutate their arguments (C04): '
                         'hypothesis wt_mod of the theorem; proved for block-matrix modules (linmod_wt)',
                         'slices are within the admissible domain of C18 (pairwise different positions, nested slices only '
@@ -697,6 +790,15 @@ def run(ctx):
             labels.append((name, kind))
             ctx.case((kind, json.dumps(case, sort_keys=True)), nontrivial,
                      sample=dict(case=name, kind=kind, features=sorted(ft), coq=expr[:400]))
+    # malformed stream (about 10%): out-of-protocol mini networks, only the exception class is compared
+    nmal = 0 if replaying else max(20, len(checks) // 10)
+    for i in range(nmal):
+        label, obs, expr = malformed_case(pym, ctx.rng)
+        ctx.count('malformed:' + label[0])
+        ctx.count('malformed-error:' + obs)
+        checks.append(expr)
+        labels.append((f'malformed:{i}', label))
+        ctx.case(('malformed',) + label, False)
     failing, err = vlib.run_cases(ctx, 'net', HEADER, checks, chunk=60 if ctx.quick() else 150)
     ctx.obligation('correspondence:case files evaluated', 'correspondence', not err, err)
     if err:
@@ -704,6 +806,11 @@ def run(ctx):
     bycase = {name: (case, states, sens) for name, case, states, sens in ran}
     for idx in failing[:20]:
         name, kind = labels[idx]
+        if name.startswith('malformed:'):
+            ctx.violation('correspondence', 'Module.response/sensitivity error dispatch', 'exception class == model', str(kind[0]),
+                          dict(name=name, parameters=list(kind), coq_check=checks[idx]),
+                          note='the exception class raised by the implementation differs from the model (Net.v errclass)')
+            continue
         case, states, sens = bycase[name]
         vals, _ = vlib.eval_coq(ctx, f'fail{idx}', HEADER, [model_expr(case, states, kind)])
         ctx.violation('correspondence', 'Network.sensitivity' if kind == 'sens' else 'Network.response',
